@@ -87,7 +87,8 @@ RunResult runPlan(Family* fam, const Plan& plan, bool trace, StatusSlot* slot) {
 	unsigned char stackFill = static_cast<unsigned char>(plan.envu("stack", 0x5a));
 	void* shift = heapShiftAcquire(static_cast<size_t>(plan.envu("shift", 0)));
 	g_alloc.heapFill = static_cast<unsigned char>(plan.envu("heap", 0xa5));
-	g_alloc.fill = true;
+	g_rawMemory = getenv("SIM_RAW_MEMORY") != nullptr;
+	g_alloc.fill = !g_rawMemory;
 	g_alloc.cap = static_cast<size_t>(plan.envu("memcap", 256ull << 20));
 	g_alloc.capHits = 0;
 	scribbleStack(stackFill);
